@@ -103,6 +103,54 @@ theorem C02_gap_never_rewinds (cfg : Cfg) (r : Reader) (start base : Nat) (set :
   have := hle.2
   omega
 
+/-- a DATA whose number is not above `highest_received_change_sn` is refused by any reader (best-effort or reliable) -/
+theorem onData_refused_of_le_highest (r : Reader) (p : WProxy) (hp : r.proxy = some p) (sn : Nat) (payload : Payload)
+    (hsn : sn ≤ p.highestRecv) : (r.onData sn payload).cache = r.cache := by
+  unfold Reader.onData
+  rw [hp]
+  simp only
+  have hm : p.highestRecv ≤ p.availMax := by unfold WProxy.availMax; omega
+  split
+  · rw [if_neg (by omega)]
+  · rw [if_neg (by omega)]
+
+/-- **C02_hb_never_reopens**: whatever HEARTBEAT a reader is handed — any `first` / `last` / count / flags, for a
+    best-effort or a reliable reader, repaired or as-is glue, in particular one whose `first` lies far below what the
+    reader has seen (it overwrites `first_available_seq_num`) — the delivered list is untouched,
+    `highest_received_change_sn` does not decrease, and a DATA of a number the reader has already received is still
+    refused afterwards: a HEARTBEAT cannot make the reader deliver a sample twice. -/
+theorem C02_hb_never_reopens (cfg : Cfg) (r r' : Reader) (p : WProxy) (hp : r.proxy = some p)
+    (first last count : Nat) (fin lv : Bool) (out : List Dgram)
+    (h : r.onHb cfg first last count fin lv = .ok (r', out)) :
+    r'.cache = r.cache ∧
+    ∃ p', r'.proxy = some p' ∧ p.highestRecv ≤ p'.highestRecv ∧
+      ∀ sn payload, sn ≤ p.highestRecv → (r'.onData sn payload).cache = r'.cache := by
+  unfold Reader.onHb at h
+  rw [hp] at h
+  simp only at h
+  split at h
+  · split at h
+    · rename_i p2 out2 hw
+      injection h with h; injection h with h1 h2; subst h1; subst h2
+      obtain ⟨hle, _⟩ := proxy_writeMessage_ok cfg _ p2 _ hw
+      have hhr : p.highestRecv ≤ p2.highestRecv := hle.2
+      refine ⟨rfl, p2, rfl, hhr, ?_⟩
+      intro sn payload hsn
+      exact onData_refused_of_le_highest _ p2 rfl sn payload (by omega)
+    · cases h
+  · injection h with h; injection h with h1 h2; subst h1; subst h2
+    refine ⟨rfl, p, hp, Nat.le_refl _, ?_⟩
+    intro sn payload hsn
+    exact onData_refused_of_le_highest _ p hp sn payload hsn
+
+/-- non-vacuity of C02_hb_never_reopens: a best-effort reader that has received 1..3 is handed a HEARTBEAT with
+    first = 1, last = 9 and a fresh count; DATA 2 is refused afterwards, DATA 4 is delivered -/
+example :
+    (match (Reader.onHb Cfg.fixed { reliable := false, proxy := some { WProxy.new with highestRecv := 3, firstAvail := 3 },
+                                     cache := [⟨3, [7]⟩] } 1 9 5 true false) with
+      | .ok (r', _) => (((r'.onData 2 [8]).cache.map snOf), ((r'.onData 4 [9]).cache.map snOf))
+      | .panic => ([], [])) = ([3], [3, 4]) := by decide
+
 /-- as-is (D43): a re-announcement of the match replaces both proxies by fresh ones — the writer sends its history
     again and the reader accepts it again: sample 1 is delivered twice with no fault at all -/
 theorem C02_rematch_duplicates_asis_counterexample :
